@@ -723,7 +723,7 @@ def make_truth(spec, infos, taplog, frames_meta, drop, cut_lo, cut_hi, dups):
                         if pk["kind"] == "retry":
                             continue
                         key = (e["d"], pk["space"])
-                        L = largest.get(key, int((spec.get("pn_preset") or {}).get(e["d"], {}).get(pk["space"], 0)) if pk["space"] == "RTT_1" else 0)
+                        L = largest.get(key, int((spec.get("pn_preset") or {}).get(str(conn["c"]["port"]), {}).get(e["d"], {}).get(pk["space"], 0)) if pk["space"] == "RTT_1" else 0)
                         bits = 8 * pk["pnlen"]
                         from .quicref import decode_pn
                         if decode_pn(L, pk["pn"] & ((1 << bits) - 1), bits) != pk["pn"]:
